@@ -5,7 +5,9 @@ C18 — Reconnectable transport redials without losing, duplicating or reorderin
 Model: Iscp/Model/Rec.lean (transport/reconnect/transport.go).  A history is any list of events: `write`,
 `failW` / `failR` (the adversary breaks the current underlying connection for writes / for reads), `script`
 (the adversary fixes the outcomes of the next redial attempts: ok, dial failure, handshake failure), `deliver`
-(a message — possibly the control ping — arrives), `read`, `close`.
+(a message — possibly the control ping — arrives), `read`, `close`, `bornFailing k` (the adversary spoils the next k
+incarnations: each is born with failing writes, so that the single write loop has to redial again and again for the same
+request — repeated write failures).
 Assumption: an underlying Write that returned an error did not deliver.
 -/
 namespace Iscp.Rec
@@ -39,23 +41,48 @@ theorem C18.accepted_once_in_order (b : Nat) (evs : List Ev) :
   have h := allLogged_run evs { budget := b } (fun k _ => rfl)
   rw [h]; rfl
 
-/-- a write that returns nil was accepted by the incarnation that is current when it returns -/
+/-- a write that returns nil was accepted by the incarnation that is current when it returns (after however many redials
+    the write loop needed), and that incarnation's log ends with the payload -/
 theorem C18.wrote_current (s : St) (bs : Bytes) (i : Nat) (h : (write s bs).2 = .wrote i) :
     i = (write s bs).1.inc ∧ ∃ l, alGet i (write s bs).1.logs = some (l ++ [bs]) := by
-  have hl : ∀ s' : St, (logTo s' bs).inc = s'.inc ∧
-      ∃ l, alGet s'.inc (logTo s' bs).logs = some (l ++ [bs]) :=
-    fun s' => ⟨rfl, _, alGet_alPut_self _ _ _⟩
-  by_cases h1 : s.closed = true ∨ s.dead = true
-  · rw [write_dead s h1] at h; simp at h
-  · by_cases h2 : s.failW = true
-    · by_cases h3 : (reconnect s).dead = true
-      · rw [write_redial_dead s bs h1 h2 h3] at h; simp at h
-      · rw [write_redial_ok s bs h1 h2 h3] at h ⊢
-        simp only [Out.wrote.injEq] at h
-        subst h; exact hl _
-    · rw [write_live s bs h1 h2] at h ⊢
-      simp only [Out.wrote.injEq] at h
-      subst h; exact hl _
+  obtain ⟨s', _, _, _, _, _, g6⟩ := write_cases s bs
+  rcases g6 with ⟨hw, _⟩ | ⟨hw, _⟩
+  · rw [hw] at h; simp at h
+  · rw [hw] at h ⊢
+    simp only [Out.wrote.injEq] at h
+    subst h
+    exact ⟨rfl, _, alGet_alPut_self _ _ _⟩
+
+/-- a Write fails only after Close or when the redial budget is exhausted (before the call or during it); in particular the
+    write loop's fuel never runs out, whatever the adversary does -/
+theorem C18.write_err_only_dead (s : St) (bs : Bytes) (h : (write s bs).2 = .err) :
+    s.closed = true ∨ s.dead = true ∨ (write s bs).1.dead = true := by
+  obtain ⟨s', _, _, _, _, _, g6⟩ := write_cases s bs
+  rcases g6 with ⟨hw, hd⟩ | ⟨hw, _⟩
+  · rw [hw]; exact hd
+  · rw [hw] at h; simp at h
+
+/-- REPEATED WRITE FAILURES: the current connection's writes fail, the next `k` incarnations are born with failing writes,
+    every redial attempt succeeds: the request is accepted exactly once, by the first incarnation whose writes work
+    (`inc + k + 1`), after exactly `k + 1` redials; nothing else is logged and the adversary's stock is used up -/
+theorem C18.repeated_write_failures (s : St) (bs : Bytes) (k : Nat)
+    (hc : ¬ s.closed) (hd : ¬ s.dead) (hf : s.failW = true) (hk : s.bornFailing = k)
+    (hs : s.script = []) (hb : 0 < s.budget) (hinv : LogsInv s) :
+    (write s bs).2 = .wrote (s.inc + k + 1) ∧ (write s bs).1.inc = s.inc + k + 1 ∧
+    (write s bs).1.bornFailing = 0 ∧ (write s bs).1.failW = false ∧
+    allLogged (write s bs).1 = allLogged s ++ [bs] ∧
+    alGet (s.inc + k + 1) (write s bs).1.logs = some [bs] ∧
+    (write s bs).1.dials = s.dials ++ List.replicate (k + 1) true := by
+  have h1 : ¬ (s.closed = true ∨ s.dead = true) := fun h => h.elim hc hd
+  obtain ⟨s', g1, g2, g3, g4, g5, g6⟩ :=
+    writeLoop_repeated bs k (s.bornFailing + 2) s hf hk hs hb hd (by omega)
+  have hr : allLogged s' = allLogged s ∧ LogsInv s' := allLogged_of_logs_eq s s' g5 (by omega) hinv
+  have hl := allLogged_logTo s' bs hr.2
+  rw [write_alive s bs h1, g1]
+  refine ⟨by rw [g2], g2, g3, g4, by rw [hl.1, hr.1], ?_, g6⟩
+  show alGet (s.inc + k + 1) (alPut s'.inc _ s'.logs) = some [bs]
+  rw [← g2, alGet_alPut_self, g5, hinv s'.inc (by omega)]
+  rfl
 
 /-- REDIAL IDENTITY: the first dial is a plain dial, every later dial attempt carries the reconnect flag -/
 theorem C18.redial_flags (b : Nat) (evs : List Ev) :
@@ -139,5 +166,20 @@ example : (run { budget := 2 } [.write [1], .failW, .script [.fail, .ok], .write
     = [.wrote 0, .ok, .ok, .wrote 1, .wrote 1, .ok, .msg [7]] := by decide
 example : (run { budget := 2 } [.failW, .script [.fail, .badHandshake, .ok], .write [2], .write [3]]).2
     = [.ok, .ok, .err, .err] := by decide
+/-- repeated write failures: incarnations 1 and 2 are born with failing writes, the pending write lands on incarnation 3 -/
+def exLandsOn3 : List Ev := [.write [1], .bornFailing 2, .failW, .write [2], .write [3]]
+example : (run { budget := 2 } exLandsOn3).2 = [.wrote 0, .ok, .ok, .wrote 3, .wrote 3] := by decide
+example : (run { budget := 2 } exLandsOn3).1.inc = 3 ∧ (run { budget := 2 } exLandsOn3).1.failW = false ∧
+    (run { budget := 2 } exLandsOn3).1.bornFailing = 0 ∧ (run { budget := 2 } exLandsOn3).1.dead = false ∧
+    (run { budget := 2 } exLandsOn3).1.dials = [false, true, true, true] ∧
+    allLogged (run { budget := 2 } exLandsOn3).1 = [[1], [2], [3]] ∧
+    alGet 3 (run { budget := 2 } exLandsOn3).1.logs = some [[2], [3]] := by decide
+/-- ... and the budget is exhausted in the middle of the loop: two redials succeed (incarnations 1 and 2, both spoilt), the
+    third one uses up its two attempts; the request is logged nowhere and every later Write fails -/
+def exDiesMidLoop : List Ev := [.bornFailing 2, .failW, .script [.ok, .fail, .ok, .fail, .fail], .write [2], .write [3]]
+example : (run { budget := 2 } exDiesMidLoop).2 = [.ok, .ok, .ok, .err, .err] := by decide
+example : (run { budget := 2 } exDiesMidLoop).1.inc = 2 ∧ (run { budget := 2 } exDiesMidLoop).1.dead = true ∧
+    (run { budget := 2 } exDiesMidLoop).1.dials = [false, true, true, true, true, true] ∧
+    allLogged (run { budget := 2 } exDiesMidLoop).1 = [] := by decide
 
 end Iscp.Rec
